@@ -176,17 +176,20 @@ def runs(present):
 
 
 def present_rows(*arrays):
-    """Row i is present iff the first component of the first array is not NaN (the convention of the
-    format's writers: the X coordinate / the application point's X decides).  A present row may carry
-    NaN in its other components - they are stored like any other value.  A row that is absent by this
-    rule but carries a number elsewhere would lose it: malformed spec."""
+    """Row i is present iff the first component of the first array is a finite number (the convention
+    of the format's writers: the X coordinate / the application point's X decides; the library under
+    test treats NaN and +-inf there alike as "no sample").  A present row may carry NaN in its other
+    components - they are stored like any other value.  A row that is absent by this rule but carries
+    a number in another component would lose it: malformed spec.  (An absent row whose first component
+    is +-inf reads back as NaN: only the size / layout checks use such rows, never a round-trip oracle.)"""
     n = len(arrays[0])
     first = np.asarray(arrays[0]).reshape(n, -1)
-    present = ~np.isnan(first[:, 0]) if first.shape[1] else np.zeros(n, bool)
-    allnan = np.ones(n, bool)
-    for a in arrays:
-        allnan &= np.isnan(np.asarray(a).reshape(n, -1)).all(axis=1)
-    if (~present & ~allnan).any():
+    present = np.isfinite(first[:, 0]) if first.shape[1] else np.zeros(n, bool)
+    rest_nan = np.ones(n, bool)
+    for k, a in enumerate(arrays):
+        a2 = np.asarray(a).reshape(n, -1)
+        rest_nan &= np.isnan(a2[:, 1:] if k == 0 else a2).all(axis=1)
+    if (~present & ~rest_nan).any():
         raise LayoutError("a frame without first component carries samples")
     return present
 
